@@ -12,8 +12,13 @@ package keeper
 // types.ValidateGenesis establishes ([params], [from]) plus "the funding account can pay",
 // which no genesis validation can see (cross-module; recorded as a known finding, DESIGN section 10 #18).
 // verif:func (Keeper).InitGenesis
+//@ callsite SetParamSet [params-as-exported] *as(ps, *types.Params) == genesisState.Params
 //@ requires [validated] rewardValid(genesisState.Params.PerBlockReward)
 //@ requires [from-ok]   len(genesisState.From) != 0 ==> errof(sdk.AccAddressFromBech32(genesisState.From)) == nil
 //@ modifies params(ctx)
 //@ modifies bank(ctx)
 //@ nopanic
+
+// genesis export of the reward-vesting module: the stored parameters (C13)
+// verif:func (Keeper).ExportGenesis
+//@ ensures [params] result.Params == rvestingParams(ctx)
